@@ -2,8 +2,8 @@
 import json, os
 import vlib
 LEVEL = "fault_enumeration"
-SRC = ["h/h_c06.c", "h/h_vmerr.c", "wrap/w_vmerr_simulate.c", "wrap/w_vmerr_errctx.c", "wrap/w_call_out.c"]
-STEM = ["simulate.c", "error_context.c"]
+SRC = ["h/h_c06.c", "h/h_vmerr.c", "wrap/w_vmerr_simulate.c", "wrap/w_vmerr_errctx.c", "wrap/w_call_out.c", "wrap/w_backend.c"]
+STEM = ["simulate.c", "error_context.c", "backend.c"]
 JOBS = int(os.environ.get("VERIF_JOBS", "16"))
 
 
@@ -30,7 +30,11 @@ RULE = ("corpus 1 = the C05 corpus: nesting shapes (compositions up to depth D o
         "call_out+remove_call_out, notify_fail(function), all with ref-counted arguments; 16 scenarios of function pointers that outlive the "
         "object AND program that made them: {bindable functional, anonymous function, local funptr, functional using a global} made by a "
         "loaded object A x kept by B {as is, after bind(f, B), as pending call_out argument, as add_action carry-over argument}, A destructed, "
-        "remove_destructed_objects() and a call_out sweep, then B evaluates it, then everything is released.  Oracle: every scenario runs 3 times in one process, "
+        "remove_destructed_objects() and a call_out sweep, then B evaluates it, then everything is released; 92 aliasing scenarios: both "
+        "operands of += + -= - &= & |= | *= * and range assignment are the SAME array / mapping / string / buffer, reached through a local, a "
+        "second variable, an array element, a mapping value, a global; 24 call-cache scenarios: call_other to a static / private / protected "
+        "/ inherited static / inherited private / prototype-only / undefined / public function on a cold and on a filled apply cache, by name, "
+        "on an array of objects and with an argument array, then the target is destructed and the cache cleared.  Oracle: every scenario runs 3 times in one process, "
         "each followed by destruct of everything it created, three call_out sweeps, remove_destructed_objects(), release of apply_ret_value "
         "and catch_value, clear_apply_cache(); leak <=> counter vector after run 3 != after run 2; vector = num_arrays, total_array_size, "
         "num_mappings, total_mapping_nodes, total_mapping_size, num_distinct_strings, bytes_distinct_strings, tot_alloc_object, "
